@@ -56,3 +56,6 @@ add("C12", "differential over fresh interpreters started with different PYTHONHA
 add("C13", "metamorphic differential: the same role-level call sequence instantiated under ordinary and under hostile injective namings; records compared after mapping labels back",
     "Every call's accept/reject outcome, role-mapped dims, shape and value hash must be identical under the renaming; hostile "
     "identifiers cover single letters, position-word fragments, prefix chains, case variants and the library's temporary names.", "2/C13")
+add("C18", "argument-snapshot monitor (deep snapshots of every argument object and of the Grid before/after each call, return or raise) + fresh-object replay differential over call histories",
+    "Histories of up to three operations re-use the same dictionaries and arrays; snapshots must be equal around every call and "
+    "each outcome must equal that of the same call made first on freshly built objects.", "2/C18")
